@@ -60,28 +60,41 @@ Definition dmax (flat : list Z) : Z := pnorm flat.
 Definition prec (ps : list Z) : Z :=
   Z.max (Z.max (zn (h_in_size ps) * h_in_b ps) (zn (h_out_size ps) * h_out_b ps)) (zn (h_key_size ps) * h_key_b ps) + 16.
 
-(* envelope of ONE gadget product with the header's key applied to an input of in_size limbs of radix in_b whose
-   digits are bounded by D when no pre-normalisation takes place (same radix), followed by one normalisation into
-   out_size limbs of radix out_b.   cin: columns multiplied with the key ; S: sup norm of the target secret ;
-   Ssrc: sup norm of what the key rows encrypt ; body: the body is added afterwards (key-switch) *)
-Definition header_env (ps : list Z) (P : Z) (D S Ssrc : Z) (cin : Z) (body : bool) : Z :=
-  let same := h_in_b ps =? h_key_b ps in
-  let a_eff := if same then h_in_size ps else conv_size (h_in_size ps) (h_in_b ps) (h_key_b ps) in
+(* envelope of ONE gadget product with the header's key applied to an input of isz limbs of radix ib whose
+   digits are bounded by D when no pre-normalisation takes place (same radix; 2^(key_b-1) after a pre-normalisation),
+   followed by one normalisation into osz limbs of radix ob.   cin: columns multiplied with the key ; S: sup norm of the
+   target secret ; Ssrc: sup norm of what the key rows encrypt ; body: the body is added afterwards (key-switch) *)
+Definition shape_env (ps : list Z) (P : Z) (D S Ssrc : Z) (cin : Z) (body : bool) (ib : Z) (isz : nat) (ob : Z) (osz : nat) : Z :=
+  let same := ib =? h_key_b ps in
+  let a_eff := if same then isz else conv_size isz ib (h_key_b ps) in
   let D' := if same then D else 2 ^ (h_key_b ps - 1) in
-  gadget_env P (zn (h_n ps)) (h_key_b ps) D' (h_dsize ps) (h_dnum ps) a_eff (h_key_size ps) cin (zn (h_key_rout ps))
-             S Ssrc (h_bound ps * 2 ^ (P - h_key_k ps)) (h_out_b ps) (h_out_size ps) body.
+  gadget_env P (Z.of_nat (h_n ps)) (h_key_b ps) D' (h_dsize ps) (h_dnum ps) a_eff (h_key_size ps) cin (Z.of_nat (h_key_rout ps))
+             S Ssrc (h_bound ps * 2 ^ (P - h_key_k ps)) ob osz body.
+Definition header_env (ps : list Z) (P : Z) (D S Ssrc : Z) (cin : Z) (body : bool) : Z :=
+  shape_env ps P D S Ssrc cin body (h_in_b ps) (h_in_size ps) (h_out_b ps) (h_out_size ps).
 
 (* one rounding of every column of a GLWE with `rank` mask columns to `size` limbs of radix b *)
 Definition round_env (P : Z) (n rank : nat) (S : Z) (b : Z) (size : nat) : Z :=
   (1 + zn rank * zn n * S) * 2 ^ (P - zn size * b).
 
 (* key-row statement: row r, input column ci of the dumped key decrypts under sk_out to src_ci * 2^-((r+1) dsize b)
-   with error at most bound * 2^-k *)
-Definition keyrow_ok (P : Z) (n : nat) (b : Z) (msize rin rout dsize dnum : nat) (bound kk : Z)
+   with error at most eb (scaled by 2^P) *)
+Definition keyrow_ok (P : Z) (n : nat) (b : Z) (msize rin rout dsize dnum : nat) (eb : Z)
            (src : list (list Z)) (sk_out : list (list Z)) (dump : list Z) : bool :=
   forallb (fun q =>
     let r := (q / rin)%nat in let ci := (q mod rin)%nat in
     let ct := nth_glwe n msize rout dump q in
     let ph := phase_flat P n b msize rout sk_out ct in
     let want := pscale (2 ^ (P - (zn r + 1) * zn dsize * b)) (nth ci src (pzero n)) in
-    tor_norm P (psub ph want) <=? bound * 2 ^ (P - kk)) (seq 0 (dnum * rin)).
+    tor_norm P (psub ph want) <=? eb) (seq 0 (dnum * rin)).
+
+(* LWE: flat = size limbs of (nl+1) words [b, a_1 .. a_nl]; phase = b + sum a_i s_i, scaled by 2^P *)
+Definition lwe_phase (P b : Z) (nl : nat) (s : list Z) (flat : list Z) : Z :=
+  fst (fold_left (fun (acc : Z * Z) l =>
+         let body := nthZ l 0 in
+         let dot := fold_left (fun t q => t + fst q * snd q) (combine (skipn 1 l) s) 0 in
+         (fst acc + (body + dot) * 2 ^ (P - (snd acc + 1) * b), snd acc + 1))
+       (chunks (length flat) (S nl) flat) (0, 0)).
+(* the GLWE secret under which an LWE secret s (nl coefficients) is embedded: sigma_{-1}(s || 0) *)
+Definition lwe_embed (P : Z) (n : nat) (s : list Z) : list Z := sigmaZ P (-1) (firstn n (s ++ zeros n)).
+Definition zabs_wrap (P x : Z) : Z := Z.abs (wrap P x).
